@@ -8,7 +8,6 @@ import (
 	"go/ast"
 	"go/parser"
 	"go/token"
-	"log/slog"
 	"os"
 	"path/filepath"
 	"runtime"
@@ -142,8 +141,8 @@ func genLuckyInter(r *lib.Rng) {
 	total := 0
 	for j := range ins {
 		cap := 1 + r.Intn(8)
-		if r.Intn(4) == 0 {
-			cap = ins0cap(ins, j, cap) // same configuration as the first: shared state would go unnoticed least
+		if j > 0 && r.Intn(4) == 0 {
+			cap = ins[0].cap // the same configuration as the first instance
 		}
 		in := &inst{cap: cap, pick: 1 + r.Intn(cap+1)}
 		n := 2 + r.Intn(3*cap+3)
@@ -191,16 +190,6 @@ func genLuckyInter(r *lib.Rng) {
 		o = append(o, lib.IL(in.outs))
 	}
 	w.Case("lucky.inter", fmt.Sprintf("nt,k%d", k), lib.V(lib.L(a...), lib.IL(sched)), lib.V(lib.L(o...), lib.Bool(pan)))
-}
-
-func ins0cap[T any](ins []*T, j, def int) int {
-	if j == 0 {
-		return def
-	}
-	if v, ok := any(ins[0]).(interface{ capOf() int }); ok {
-		return v.capOf()
-	}
-	return def
 }
 
 func genNtimedInter(r *lib.Rng) {
@@ -660,5 +649,3 @@ func buildNotes() {
 	fused := fmaX*fmaY+fmaZ != 0
 	fmt.Printf("NOTE build: GOARCH=%s GOAMD64=%s %s; x*y+z contracted to FMA by this build: %v\n", runtime.GOARCH, goamd64, runtime.Version(), fused)
 }
-
-var _ = slog.LevelDebug
